@@ -197,7 +197,20 @@ def run_tftpc(args, cwd, timeout=40):
 
 def one_run(srv, sb, workdir, direction, remote, content, blk, w, tmo, label, host="127.0.0.1", local_name=None,
             expect_refusal=False, via_proxy=True, hold=0.004, run_timeout=40):
-    """Runs tftpc once.  Returns (server events, client events, final event)."""
+    """Runs tftpc once.  Returns (server events, client events, final event).  A run in which the
+    kernel drops datagrams (see `lossy` below) depends on real time and scheduling: if it does not
+    end with identical files it is repeated, and only the third failure in a row is returned."""
+    for attempt in range(3):
+        se, ce, fin = _one_run(srv, sb, workdir, direction, remote, content, blk, w, tmo, label, host, local_name,
+                               expect_refusal, via_proxy, hold, run_timeout)
+        if fin["same"] or fin["wire_judged"] or expect_refusal or not fin.get("lossy"):
+            break
+        time.sleep(7 * tmo if tmo <= 2 else 1)      # let the server's worker of the failed run give up first
+    return se, ce, fin
+
+
+def _one_run(srv, sb, workdir, direction, remote, content, blk, w, tmo, label, host, local_name,
+             expect_refusal, via_proxy, hold, run_timeout):
     os.makedirs(workdir, exist_ok=True)
     rd = os.path.join(workdir, "rd")
     os.makedirs(rd, exist_ok=True)
@@ -297,7 +310,7 @@ def one_run(srv, sb, workdir, direction, remote, content, blk, w, tmo, label, ho
     final = {"e": "final", "label": label, "dir": direction, "refused": bool(refused), "expect_refusal": expect_refusal,
              "target_exists": got is not None, "same": got == content, "strays": len(strays),
              "client_reported_error": ("error" in (so + se).lower()), "rc": rc, "timed_out": se == "TIMEOUT",
-             "args": args[:1] + args[5:], "wire_judged": bool(srv_ev)}
+             "args": args[:1] + args[5:], "wire_judged": bool(srv_ev), "lossy": lossy}
     return srv_ev, cli_ev, final
 
 
